@@ -1361,9 +1361,24 @@ func (x *explorer) opaque(st *state, fr *frame, name string, obj *types.Func, st
 	st.nOcc[name] = n + 1
 	t := &Term{Op: "icall", Name: fmt.Sprintf("%s#%d", name, n), Args: all, Callee: obj, Site: instr}
 	// a local passed by address to an effectful call may be overwritten by it
-	for i, a := range all {
-		if a.Op == "cell" && outParamCalls[name] {
-			st.mem[a.Key()] = &Term{Op: "out", Name: fmt.Sprintf("%d", i), Args: []*Term{t}}
+	if outParamCalls[name] {
+		for i, a := range all {
+			cells := []*Term{a}
+			if a.Op == "lit" { // variadic pack
+				cells = a.Args
+			}
+			for _, cl := range cells {
+				if cl.Op == "cell" {
+					st.mem[cl.Key()] = &Term{Op: "out", Name: fmt.Sprintf("%d", i), Args: []*Term{t}}
+					// forget field-level bindings of the overwritten struct
+					pre := "addr:"
+					for k := range st.mem {
+						if strings.HasPrefix(k, pre) && strings.HasSuffix(k, "("+cl.Key()+")") {
+							delete(st.mem, k)
+						}
+					}
+				}
+			}
 		}
 	}
 	x.event(st, fr, &Event{Kind: "call", Name: name, Callee: obj, StaticFn: static, Recv: recv, Args: args, Result: t, Instr: instr, Invoke: invoke})
@@ -1385,7 +1400,7 @@ func (x *explorer) opaque(st *state, fr *frame, name string, obj *types.Func, st
 
 // outParamCalls: effectful calls known to write through a pointer argument
 // (every other external call is assumed not to write to the caller's locals).
-var outParamCalls = map[string]bool{"errors.As": true, "json.Unmarshal": true, ".Decode": true, ".Unmarshal": true, ".UnmarshalJSON": true, ".Scan": true}
+var outParamCalls = map[string]bool{"errors.As": true, "json.Unmarshal": true, ".Decode": true, ".Unmarshal": true, ".UnmarshalJSON": true, ".Scan": true, ".Claims": true, ".UnsafeClaimsWithoutVerification": true}
 
 // ------------------------------------------------------------- purity table
 
